@@ -96,15 +96,17 @@ Theorem C02_grid : forall lin m n s g, (simple_feature s < m)%nat ->
 Proof. exact grid_simple. Qed.
 Print Assumptions C02_grid.
 (* k-way tensor term: n^k rows; row j1*n^(k-1) + ... + jk ('ij' mesh, C order) has the feature of marginal i equal to
-   point j_i of that marginal's linspace; every other column -- the by-column included -- is 0 *)
+   point j_i of that marginal's linspace, the by-column 1, every other column 0 *)
 Theorem C02_grid_tensor : forall lin m n ms by_ g, default_grid Rfops lin m n (CTensor ms by_) = Some g ->
   NoDup (map simple_feature ms) -> Forall (fun s => (simple_feature s < m)%nat) ms ->
+  (forall j, by_ = Some j -> (j < m)%nat /\ ~ In j (map simple_feature ms)) ->
   length g = (n ^ length ms)%nat /\
   forall js, length js = length ms -> Forall (fun j => (j < n)%nat) js -> let row := nth (ravel n js) g [] in
     length row = m /\
     (forall i, (i < length ms)%nat ->
        nth (simple_feature (nth i ms (SLinear O))) row 0 = nth (nth i js O) (axis Rfops lin n (nth i ms (SLinear O))) 0) /\
-    (forall c, ~ In c (map simple_feature ms) -> nth c row 0 = 0).
+    (forall j, by_ = Some j -> nth j row 0 = 1) /\
+    (forall c, ~ In c (map simple_feature ms) -> by_ <> Some c -> nth c row 0 = 0).
 Proof. exact grid_tensor. Qed.
 Print Assumptions C02_grid_tensor.
 (* the facts extracted from generate_X_grid / _flatten_mesh on this run are the ones the model implements *)
@@ -112,26 +114,36 @@ Theorem C02_grid_source_facts : Gen_grid_facts = model_grid_facts.
 Proof. exact grid_facts_ok. Qed.
 Print Assumptions C02_grid_source_facts.
 
-(* "any by-variable set to one" is FALSE for tensor terms: _flatten_mesh never assigns the by-column (S7) ... *)
-Theorem C02_grid_tensor_by_refuted : exists lin m n ms j g,
-  ~ In j (map simple_feature ms) /\ (j < m)%nat /\ default_grid Rfops lin m n (CTensor ms (Some j)) = Some g /\
-  ~ (forall row, In row g -> nth j row 0 = 1).
-Proof. exact tensor_by_column_not_one. Qed.
-Print Assumptions C02_grid_tensor_by_refuted.
-(* ... hence partial_dependence(i) of every tensor term with a by-variable is identically 0 on its default grid
-   (meshgrid False or True) ... *)
-Theorem C02_grid_tensor_by_effect_vanishes : forall lin m n ts beta i ms j, nth i ts CIntercept = CTensor ms (Some j) ->
-  ~ In j (map simple_feature ms) ->
-  (forall g, pdep_default Rfops lin m n ts beta i = Some g -> Forall (fun v => forall p, v = Some p -> p = 0) g) /\
-  Forall (fun v => forall p, v = Some p -> p = 0) (pdep_meshgrid Rfops lin m n ts beta i).
-Proof. exact tensor_by_default_pdep_zero. Qed.
-Print Assumptions C02_grid_tensor_by_effect_vanishes.
-(* ... and so is partial_dependence(i, meshgrid=True) of a spline term with a by-variable *)
-Theorem C02_meshgrid_spline_by_effect_vanishes : forall lin m n ts beta i f e0 e1 ns k per j,
-  nth i ts CIntercept = CSimple (SSpline f e0 e1 ns k per (Some j)) -> j <> f ->
-  Forall (fun v => forall p, v = Some p -> p = 0) (pdep_meshgrid Rfops lin m n ts beta i).
-Proof. exact spline_by_meshgrid_pdep_zero. Qed.
-Print Assumptions C02_meshgrid_spline_by_effect_vanishes.
+(* "any by-variable set to one": every term kind with a by-variable, meshgrid off (generate_X_grid) or on (_flatten_mesh),
+   every row of the grid (the former S7 / S7b defects, repaired in /repo) *)
+Theorem C02_grid_by_is_one : forall lin m n (t : cterm R) j, term_by t = Some j -> (j < m)%nat ->
+  (forall g, default_grid Rfops lin m n t = Some g -> Forall (fun row => nth j row 0 = 1) g) /\
+  Forall (fun row => nth j row 0 = 1) (mesh_grid Rfops lin m n t).
+Proof. exact (fun lin m n t j Hb Hj => conj (fun g => default_grid_by_one lin m n t j g Hb Hj) (mesh_grid_by_one lin m n t j Hb Hj)). Qed.
+Print Assumptions C02_grid_by_is_one.
+(* for a non-tensor term the flattened meshgrid=True grid is the meshgrid=False grid *)
+Theorem C02_grid_meshgrid_agrees : forall lin m n (s : simple R),
+  default_grid Rfops lin m n (CSimple s) = Some (mesh_grid Rfops lin m n (CSimple s)).
+Proof. exact simple_meshgrid_is_default_grid. Qed.
+Print Assumptions C02_grid_meshgrid_agrees.
+(* consequently partial_dependence(i) without X -- meshgrid False or True -- is at every grid row the effect of the term
+   with its by-variable removed, i.e. the term evaluated at by = 1: dot of the by-free columns with the term's
+   coefficient slice *)
+Theorem C02_default_pdep_is_effect_at_by_one : forall lin m n (ts : list (cterm R)) beta i,
+  (forall j, term_by (nth i ts CIntercept) = Some j -> (j < m)%nat) ->
+  pdep_default Rfops lin m n ts beta i =
+    option_map (map (fun row => option_map (fun b => dot Rrops b (term_coefs ts beta i)) (block Rfops (drop_by (nth i ts CIntercept)) row)))
+               (default_grid Rfops lin m n (nth i ts CIntercept)) /\
+  pdep_meshgrid Rfops lin m n ts beta i =
+    map (fun row => option_map (fun b => dot Rrops b (term_coefs ts beta i)) (block Rfops (drop_by (nth i ts CIntercept)) row))
+        (mesh_grid Rfops lin m n (nth i ts CIntercept)).
+Proof. exact default_pdep_is_effect_at_by_one. Qed.
+Print Assumptions C02_default_pdep_is_effect_at_by_one.
+(* at by = 1 a term's columns are those of the same term without its by-variable *)
+Theorem C02_by_one_is_no_by : forall (t : cterm R) j row, term_by t = Some j -> nth j row 0 = 1 ->
+  block Rfops t row = block Rfops (drop_by t) row.
+Proof. exact block_at_by_one. Qed.
+Print Assumptions C02_by_one_is_no_by.
 
 (* the rational instance evaluated by the correspondence check denotes the real instance *)
 Theorem C02_model_transfer : forall (ts : list (cterm Q)) (beta row : list Q) i lin m n,
